@@ -76,6 +76,9 @@ type vClientComm struct {
 	n       int64
 	stats   vStats
 	closed  int32
+	// DupConcurrent > 1: the copies of a duplicated query (fate vQueryDup) reach the server at the same time, that many of
+	// them (the real server handles every datagram on a goroutine of its own); 0: one after the other
+	DupConcurrent int
 	// OnExchange, if set, observes every query that reaches the server and its answer (wire forms)
 	OnExchange func(q, a []byte)
 	// OnSilent, if set, observes every query the server did not answer
@@ -199,6 +202,24 @@ func (c *vClientComm) SendAndReceive(m *dns.Msg, timeout *time.Duration) (*dns.M
 		c.deliver(wire)
 		return nil, 0, vTimeout(m)
 	case vQueryDup:
+		if k := c.DupConcurrent; k > 1 {
+			answers := make([]*dns.Msg, k)
+			var wg sync.WaitGroup
+			for i := 0; i < k; i++ {
+				wg.Add(1)
+				go func(i int) {
+					defer wg.Done()
+					answers[i], _, _ = c.deliver(wire)
+				}(i)
+			}
+			wg.Wait()
+			for _, a := range answers {
+				if a != nil {
+					return a, time.Millisecond, nil
+				}
+			}
+			return nil, 0, vTimeout(m)
+		}
 		a, _, _ := c.deliver(wire)
 		c.deliver(wire)
 		if a == nil {
